@@ -2,7 +2,7 @@
    Statements only; proofs in proofs/AbftDfs.v AbftChain.v AbftSeal.v AbftProcess.v. *)
 From Coq Require Import NArith List.
 From LV Require Import model.VecIndex model.Abft model.AbftRun spec.AbftSpec proofs.AbftFrame
-  proofs.AbftDfs proofs.AbftDfsFuel proofs.AbftSeal proofs.AbftProcess proofs.AbftChain proofs.AbftRoots proofs.AbftRooted proofs.AbftRunInv proofs.VecStep proofs.AbftInv proofs.AbftInvStep proofs.AbftGraph proofs.AbftSealWitness.
+  proofs.AbftDfs proofs.AbftDfsFuel proofs.AbftSeal proofs.AbftProcess proofs.AbftChain proofs.AbftRoots proofs.AbftRooted proofs.AbftRunInv proofs.VecStep proofs.AbftInv proofs.AbftInvStep proofs.AbftGraph proofs.AbftFuel proofs.AbftSealWitness.
 Import ListNotations.
 Local Open Scope N_scope.
 
@@ -90,6 +90,14 @@ Theorem C02_root_table_is_graph_slots : forall i, J i -> forall r,
   exists e, In (a_id e) (i_proc i) /\ get_event (i_es i) (a_id e) = Some e /\ slot_of (i_es i) e r.
 Proof. intros i HJ. exact (j_roots i HJ). Qed.
 
+(* audit-F F4: no call ever runs out of the model's fuel (all loops: frame computation, processKnownRoots,
+   bootstrapElection, handleElection, the confirm DFS); V and elinv hold in every reachable state *)
+Theorem C02_process_never_out_of_fuel : forall cap eb es st e, V st -> elinv st ->
+  fst (fst (process cap eb es st e)) <> Err EFuel.
+Proof. exact process_never_out_of_fuel. Qed.
+Theorem C02_bootstrap_never_out_of_fuel : forall cap eb es p, fst (fst (bootstrap cap eb es p)) <> Err EFuel.
+Proof. exact bootstrap_never_out_of_fuel. Qed.
+
 (* restart: the blocks Bootstrap may emit obey the same numbering *)
 Theorem C02_bootstrap_frames : forall cap end_block es p r bl st',
   bootstrap cap end_block es p = (r, bl, st') ->
@@ -116,3 +124,5 @@ Print Assumptions C02_V_initially.
 Print Assumptions C02_invariants_hold_on_every_run.
 Print Assumptions C02_atropos_is_graph_root.
 Print Assumptions C02_root_table_is_graph_slots.
+Print Assumptions C02_process_never_out_of_fuel.
+Print Assumptions C02_bootstrap_never_out_of_fuel.
